@@ -93,7 +93,10 @@ def rule_float_siblings(col, facts):
         only_a, only_b = diff_ms(ea, eb)
         # declared difference: the partial variant pairs each result with a count: tuple aggregates,
         # reads of `.cursor()`, and moves of the count; nothing else
-        allowed_b = lambda ev: ev[0] == "agg" and ev[1] == "tuple" or (ev[0] == "call" and ev[1].endswith("::cursor")) or ev[0] == "cast"
+        # (the pairing may be written `.map(|zero| (zero, consumed))`: a closure whose body makes no call)
+        pairing_closures = all(not list(g.calls()) for g in facts.all_fns() if g.kind == "Closure" and g.closure_of == fb.short)
+        allowed_b = lambda ev: ev[0] == "agg" and ev[1] == "tuple" or (ev[0] == "call" and ev[1].endswith("::cursor")) or ev[0] == "cast" or \
+            (pairing_closures and (ev[:2] == ("agg", "closure") or (ev[0] == "call" and ev[1].endswith(("Result::map", "Option::map")))))
         extra_b = {ev: n for ev, n in only_b.items() if not allowed_b(ev)}
         extra_a = {ev: n for ev, n in only_a.items() if not (ev[0] == "cast")}
         col.check(R, "%s~%s:complete-only" % (last_seg(a), last_seg(b)), not extra_a,
@@ -120,11 +123,11 @@ def rule_float_siblings(col, facts):
     good = False
     for i, st in oks:
         for _d, e, pol in path_conditions(pc, i):
-            if _is_count_eq_length(e) and pol is True:
+            if _consumed_all(e, pol) is True:
                 good = True
     col.check(R2, "parse_complete_number:Ok", bool(oks) and good, "Ok(number) is returned without `count == byte.buffer_length()` having held", pc.loc())
     errs = [(bb, v, sp) for bb, v, sp in error_sites(pc) if v == "InvalidDigit"]
-    good = any(any(_is_count_eq_length(e) and pol is False for _d, e, pol in path_conditions(pc, bb)) for bb, v, sp in errs)
+    good = any(any(_consumed_all(e, pol) is False for _d, e, pol in path_conditions(pc, bb)) for bb, v, sp in errs)
     col.check(R2, "parse_complete_number:InvalidDigit", good, "no `Err(InvalidDigit(count))` on the count != length edge", pc.loc())
     ps = facts.fn(PF + "parse::parse_special")
     calls = [callee_name(c) for _b, c, _a, _d, _t in ps.calls()]
@@ -134,7 +137,15 @@ def rule_float_siblings(col, facts):
         for st in b["s"]:
             if st[0] == "=" and st[2][0] == "agg" and st[2][1][0] == "adt" and st[2][1][3] == "Some":
                 somes.append(i)
-    good = bool(somes) and all(any(_is_count_eq_length(e) and pol is True for _d, e, pol in path_conditions(ps, i)) for i in somes)
+    good = bool(somes) and all(any(_consumed_all(e, pol) is True for _d, e, pol in path_conditions(ps, i)) for i in somes)
+    if not somes and any(c.endswith("Option::filter") for c in calls):
+        # `parse_partial_special(..).filter(|&(_, count)| count == length).map(|(f, _)| f)`: the test is the filter's
+        # closure - it must compare (==) and contain no call
+        for g in facts.all_fns():
+            if g.kind == "Closure" and g.closure_of == ps.short:
+                eqs = [st for b in g.blocks for st in b["s"] if st[0] == "=" and st[2][0] == "bin" and st[2][1] == "Eq"]
+                if eqs and not list(g.calls()):
+                    good = True
     col.check(R2, "parse_special:Some", good, "Some(float) is returned without `count == length` having held", ps.loc())
     # IS_PARTIAL only chooses between errors
     pn = facts.fn(PF + "parse::parse_number")
@@ -177,6 +188,33 @@ def _is_count_eq_length(e):
         s = str(e)
         return "buffer_length" in s and ("parse_number" in s or "parse_partial_special" in s)
     return False
+
+
+def _consumed_all(e, pol):
+    """Does the atom say that the count returned by the partial parser equals the input length?  True / False /
+    None (the atom is about something else).  `count == len`, `count != len`, `count < len`, `count >= len`, either
+    way round; the length is buffer_length() or the len() of get_buffer()."""
+    e = strip_casts(e)
+    if not (e[0] == "bin" and e[1] in ("Eq", "Ne", "Lt", "Ge", "Gt", "Le") and isinstance(pol, bool)):
+        return None
+    l, r = str(e[2]), str(e[3])
+    is_len = lambda x: "buffer_length" in x or ("get_buffer" in x and ("::len" in x or "PtrMetadata" in x))
+    is_cnt = lambda x: "parse_number" in x or "parse_partial_special" in x
+    op = e[1]
+    if is_len(l) and is_cnt(r) and not is_cnt(l):
+        op = {"Eq": "Eq", "Ne": "Ne", "Lt": "Gt", "Gt": "Lt", "Le": "Ge", "Ge": "Le"}[op]      # count OP' length
+    elif not (is_cnt(l) and is_len(r)):
+        return None
+    # count <= length always (a cursor into the same buffer)
+    if op == "Eq":
+        return pol
+    if op == "Ne":
+        return not pol
+    if op == "Lt":
+        return not pol
+    if op == "Ge":
+        return pol
+    return None
 
 
 def _leads_only_to_err(f, bb, depth=0):
